@@ -2,6 +2,7 @@ import Gimli.Drv.Util
 import Gimli.Model.ConvCfi
 import Gimli.Model.ConvLine
 import Gimli.Model.ConvOp
+import Gimli.Model.ConvUnit
 /-!
 C12 requests.
 
@@ -138,6 +139,11 @@ def exprConv (e : Endian) (enc : Op.Encoding) (bs : Bytes) (m : List ExEntry) (t
     | .panic w => s!"panic {w}"
     | .diverge => "diverge"
 
+/-- `c12-vtexpr`: the expression is a `DW_AT_vtable_elem_location` (`ConvUnit.vtableRaw`: exactly one
+`DW_OP_constu` is copied verbatim, anything else is converted like every other expression) -/
+def vtExprConv (e : Endian) (enc : Op.Encoding) (bs : Bytes) (m : List ExEntry) (tab : Bytes) : String :=
+  if ConvUnit.vtableRaw bs then s!"ok {toHex bs}" else exprConv e enc bs m tab
+
 def handle (op : String) (args : List String) : Option String :=
   if op == "c12-dwarf" || op == "c12-frame" then some "ok *"
   else match op, args with
@@ -151,6 +157,14 @@ def handle (op : String) (args : List String) : Option String :=
         let ver ← ver.toNat?
         if ver < 2 ∨ ver > 5 then none
         some (exprConv e { addressSize := asz, format := ← format? fmt, version := ver } (← parseHex x)
+          (← parseExMap map) (← parseHex addr))
+    | "c12-vtexpr", [e, asz, fmt, ver, x, map, addr] => do
+        let e ← endian? e
+        let asz ← asz.toNat?
+        if asz ≠ 4 ∧ asz ≠ 8 then none
+        let ver ← ver.toNat?
+        if ver < 2 ∨ ver > 5 then none
+        some (vtExprConv e { addressSize := asz, format := ← format? fmt, version := ver } (← parseHex x)
           (← parseExMap map) (← parseHex addr))
     | _, _ => none
 
